@@ -52,7 +52,14 @@ def run_case(case, ctx):
                     # split present but nothing written: iteration of an empty
                     # selection raises by design; nothing to compare
                     continue
-                got = oracles.read_ids_checked(ds, h.desc, split, ctx, "intact")
+                ok, got = oracles.guarded(
+                    ctx, "append", ("read-back-raised", hname),
+                    f"after session {info['session']} "
+                    f"({info.get('relation')}) split {split} on {hname} "
+                    f"handle", lambda: oracles.read_ids_checked(
+                        ds, h.desc, split, ctx, "intact"))
+                if not ok:
+                    continue
                 if Counter(got) != Counter(want):
                     ctx.fail(
                         "append", ("multiset-mismatch", hname),
